@@ -18,6 +18,10 @@ import (
 	"strconv"
 )
 
+// raceMode (VRT_RACE=1): a harness runs in two goroutines at once under the race detector. The runtime then
+// keeps no mutable state and takes no lock (a lock would order the two runs and hide the races looked for).
+var raceMode = os.Getenv("VRT_RACE") != ""
+
 var (
 	model   map[string]string
 	loaded  bool
@@ -123,12 +127,17 @@ func Choice(name string, n int) int {
 
 func Assume(c bool) {
 	if !c {
-		Skipped = true
+		if !raceMode {
+			Skipped = true
+		}
 		panic(skip{})
 	}
 }
 
 func Assert(c bool, label string) {
+	if raceMode {
+		return
+	}
 	ks := known
 	known = nil
 	if !c {
@@ -140,7 +149,7 @@ func Assert(c bool, label string) {
 // Known registers, for the next Assert, a known-finding class: if the assertion
 // fails and class holds, the failure belongs to known finding id.
 func Known(id string, class bool) {
-	if class {
+	if class && !raceMode {
 		known = append(known, id)
 	}
 }
